@@ -347,8 +347,10 @@ class ModelCompiler:
                 elif isinstance(defn, xltypes.XLRange):
                     for row in defn.cells:
                         for column in row:
-                            extracted_model.cells[column] = copy.deepcopy(
-                                model.cells[column])
+                            # A named range may span cells that hold nothing.
+                            if column in model.cells:
+                                extracted_model.cells[column] = \
+                                    copy.deepcopy(model.cells[column])
 
         # Everything the copied cells depend on, directly or transitively:
         # cells, the cells of ranges, and what defined names stand for.
